@@ -198,6 +198,45 @@ void ProtoRun::filter_record(Record &r, std::vector<Bytes> &out) {
                     obs.counters[std::string("fault.") + a.kind + "_applied"]++;
                 }
             }
+        } else if (a.kind == "vecgrow") {
+            // a length-prefixed vector ANYWHERE inside a plaintext handshake message gets N more bytes (copies of its last two bytes, so list
+            // items stay plausible), its own length field, the handshake length, the DTLS fragment length and the record length adjusted;
+            // enclosing vectors are not (some results are inconsistent messages, others are simply longer lists than any honest peer sends)
+            size_t hh = pc.dtls() ? 12 : 4;
+            bool plain_hs = r.type == 22 && blen >= hh && !ccs_emitted[dir] && (!pc.dtls() || r.epoch == 0);
+            if (plain_hs) {
+                size_t hslen = (size_t) u.b[hdr + 1] << 16 | (size_t) u.b[hdr + 2] << 8 | u.b[hdr + 3];
+                if (hslen + hh == blen) {
+                    size_t body0 = hdr + hh, bend = u.b.size();
+                    struct Cand { size_t off, w, v; }; std::vector<Cand> cands;
+                    for (size_t off = body0; off + 1 < bend; off++) {
+                        for (size_t w = 1; w <= 2; w++) {
+                            if (off + w > bend) { continue; }
+                            size_t v = 0; for (size_t i = 0; i < w; i++) { v = v << 8 | u.b[off + i]; }
+                            if (v >= 2 && off + w + v <= bend) { cands.push_back({ off, w, v }); }
+                        }
+                    }
+                    if (!cands.empty()) {
+                        Cand c = cands[(size_t) ((uint64_t) a.b % cands.size())];
+                        size_t n = ((uint64_t) a.a % 4 == 0) ? 2000 + 2 * (size_t) ((uint64_t) (a.a / 4) % 7000) : 2 + 2 * (size_t) ((uint64_t) (a.a / 4) % 120);
+                        size_t maxrec = 16384; if (blen + n > maxrec) { n = blen < maxrec ? ((maxrec - blen) & ~(size_t) 1) : 0; }
+                        if (c.w == 1 && c.v + n > 255) { n = (255 - c.v) & ~(size_t) 1; }
+                        if (c.w == 2 && c.v + n > 65535) { n = 0; }
+                        if (n > 0) {
+                            size_t at = c.off + c.w + c.v;
+                            Bytes ins(n); for (size_t i = 0; i < n; i++) { ins[i] = u.b[at - 2 + (i & 1)]; }
+                            u.b.insert(u.b.begin() + (long) at, ins.begin(), ins.end());
+                            auto put = [&](size_t off, size_t w, size_t v) { for (size_t i = 0; i < w; i++) { u.b[off + i] = (unsigned char) (v >> (8 * (w - 1 - i))); } };
+                            put(c.off, c.w, c.v + n); put(hdr + 1, 3, hslen + n);
+                            if (pc.dtls()) { put(hdr + 9, 3, hslen + n); }
+                            size_t nl = u.b.size() - hdr; size_t lo = pc.dtls() ? 11 : 3;
+                            u.b[lo] = (unsigned char) (nl >> 8); u.b[lo + 1] = (unsigned char) nl;
+                            u.tampered = true; u.kind = a.kind; u.is_mod = is_mod;
+                            obs.counters["fault.vecgrow_applied"]++;
+                        }
+                    }
+                }
+            }
         } else if (a.kind == "refrag") {
             // split a plaintext TLS handshake record into two records at a seeded offset (legal: handshake messages may span records)
             if (!pc.dtls() && r.type == 22 && blen >= 2 && !ccs_emitted[dir]) {
